@@ -153,7 +153,7 @@ def run(ctx):
             f = formats[m["f"] - 1]
             toks = [L.txt(t) for t in m["line"]]
             for wb in (0, 1):
-                err, res, extra = L.parse_once(DefaultArgsParser(), fobjs[m["f"] - 1][wb], f, toks, m["lenient"])
+                err, res, extra = L.parse_once(DefaultArgsParser(), fobjs[m["f"] - 1][wb], f, toks, m["lenient"], form=("string" if wb else "argv"))
                 ctx.count()
                 ok = err == m["err"] and res == m["result"] and extra is not None and agrees(res, extra)
                 if not ok:
